@@ -87,7 +87,7 @@ pub fn inputs(kind: &str, tier: Tier) -> Inputs {
         }
         nb.extend(single_edit_neighbours(d, &MARKERS));
     }
-    let sequences = dedup_docs(token_sequences(&tokens(kind), tier.pick(2, 3)));
+    let sequences = dedup_docs(token_sequences(&tokens(kind), tier.pick(3, 3)));
     Inputs { corpus, neighbours: dedup_docs(nb), sequences }
 }
 
